@@ -43,8 +43,9 @@ PROG = r"""
 import contextlib, io, json, os, sys
 from ariadne_codegen.main import client
 root = sys.argv[1]
-cfg = dict(schema_path=os.path.join(root, "schema.graphql"), queries_path=os.path.join(root, "queries.graphql"),
-           target_package_name="pkg", target_package_path=root, include_comments="none",
+os.chdir(root)      # relative paths: the `stable` comments name the source files, which must not depend on the scratch directory
+cfg = dict(schema_path="schema.graphql", queries_path="queries.graphql",
+           target_package_name="pkg", target_package_path=".", include_comments="stable",
            scalars={"Money": {"type": "client.scalars.Money", "parse": "client.scalars.parse_money", "serialize": "client.scalars.ser_money"}},
            plugins=json.loads(sys.argv[2]))
 with contextlib.redirect_stdout(io.StringIO()):
@@ -68,12 +69,13 @@ PROG_TWICE = r"""
 import contextlib, io, json, os, sys
 from ariadne_codegen.main import client
 root = sys.argv[1]
+os.chdir(root)      # relative source paths (the `stable` comments name them)
 # ONE configuration (the same objects: scalars dict, plugin list, files_to_include list) used for both generations
 files = [os.path.join(root, "extra_helpers.py")]
 scalars = {"Money": {"type": "client.scalars.Money", "parse": "client.scalars.parse_money", "serialize": "client.scalars.ser_money"}}
 plugins = json.loads(sys.argv[2])
-cfg = dict(schema_path=os.path.join(root, "schema.graphql"), queries_path=os.path.join(root, "queries.graphql"),
-           target_package_name="pkg", include_comments="none", scalars=scalars, plugins=plugins, files_to_include=files)
+cfg = dict(schema_path="schema.graphql", queries_path="queries.graphql",
+           target_package_name="pkg", include_comments="stable", scalars=scalars, plugins=plugins, files_to_include=files)
 config = {"tool": {"ariadne-codegen": cfg}}
 for sub in ("first", "second", "edited"):
     if sub == "edited":
